@@ -524,6 +524,10 @@ class RealizeMemrefCasts(RewritePattern):
                 use_op = parent
             return use_op
 
+        # a use inside a nested region (a loop) may never execute: the copies are then placed
+        # around that region and the buffer is always filled first
+        nested = any(in_cast_block(u) is not u for u in uses)
+
         # insert "copy to" before the first use (of any kind: an earlier writer must not be
         # overwritten), if there is a use as input
         assert op.parent
@@ -542,7 +546,7 @@ class RealizeMemrefCasts(RewritePattern):
                 is_input = op.results[0] in use_op.inputs
             else:
                 is_input = True
-            if is_input:
+            if is_input or nested:
                 # insert copy op
                 copy_op = memref.CopyOp(source_op.source, op.dest)
                 rewriter.insert_op(copy_op, InsertPoint.before(first_use))
@@ -567,7 +571,7 @@ class RealizeMemrefCasts(RewritePattern):
             if is_output:
                 # insert copy op
                 copy_op = memref.CopyOp(op.dest, source_op.source)
-                rewriter.insert_op(copy_op, InsertPoint.after(use_op))
+                rewriter.insert_op(copy_op, InsertPoint.after(in_cast_block(use_op)))
                 break
 
         # insert all ops
